@@ -19,6 +19,8 @@ import (
 	"path/filepath"
 	"sort"
 	"strings"
+
+	"github.com/massnetorg/mass-core/logging"
 )
 
 type Failure struct {
@@ -81,6 +83,9 @@ func New(name string) *H {
 	must(err)
 	h.implF, err = os.Create(filepath.Join(*out, "impl.txt"))
 	must(err)
+	// mass-core's logging initialises itself lazily, and not thread-safely, on the first CPrint: do it here, on
+	// the main goroutine, before a harness starts anything concurrent
+	logging.CPrint(logging.DEBUG, "verification harness "+name)
 	h.ops = bufio.NewWriter(h.opsF)
 	h.impl = bufio.NewWriter(h.implF)
 	return h
